@@ -19,6 +19,30 @@ CHECKS = {
                 technique="deterministic simulation: layout-mismatch matrix as injected fault, ledger + allocator oracle",
                 text="A matrix of 14 mismatching element type pairs (equal/unequal size x equal/unequal alignment, zero-size vs non-zero-size, same size with different alignment) x every vector length up to a bound is enumerated, plus seeded samples up to length 40: the call must unwind with zero converter calls, every input destroyed exactly once and the buffer freed once with its own layout.",
                 note="The matrix is finite and hand-chosen; types outside it are not covered."),
+    "C04": dict(engine="SIM-R", category="exploration", design_ref="DESIGN.md 2.2, 3, App. A",
+                technique="deterministic simulation: seeded operation histories on generated records vs. an offset-free reference model; dev + release + Miri arms; low-rate fault injection on bystander records",
+                text="Seeded search over (definition from the real builder/generator, capacity, operation history): New/NewUninit/Get/Set/Mutate/Move/Unpack on up to 4 live records in inline, boxed and shifted-box placements; after every step every field of every live record is read back through & and &mut accessors and compared with the model (unique values, so each read is attributable to one write), also right after injected faults on other records. Samples definitions and histories; no proof.",
+                note="Trusts the glue emitter and model (exercised by seeded mutants), rustc, Miri for the UB classes mapped to C04. Definitions: directed corpus + seeded swarm; field types from a fixed catalogue."),
+    "C05": dict(engine="SIM-R", category="exploration", design_ref="DESIGN.md 2.2, 3, App. A",
+                technique="deterministic simulation: conversion chains through all four generated forms (single records and in-place vector conversion) vs. reference model, dev + release + Miri arms",
+                text="Seeded search over conversion-heavy histories: each of the four generated From forms, chains of random forms up to the last variant, vector conversions with scripted converters, on definitions including removed and added fields that share bytes; carried fields must be unchanged, added fields equal the supplied values, returned removed fields equal what was stored. Samples; no proof.",
+                note="Same trusted base as C04."),
+    "C06": dict(engine="SIM-R", category="exploration", design_ref="DESIGN.md 2.2, 3, App. A",
+                technique="deterministic simulation with fault injection: full record life cycles under clone/serde/converter faults; exactly-once ledger + allocator conservation after every step and at end of life",
+                text="Seeded search over whole life cycles (construction, mutation, conversion, vector conversion, unpack, clone, clone_from, decode, drop) with panics and errors injected inside user callbacks; after every operation the ledger's live instances must equal what the model says the world owns (no leak, no double destruction, replaced/removed values destroyed at the specified moment) and at the end of each history every instance is destroyed exactly once and heap bytes are back to baseline. Samples; no proof.",
+                note="Ledger covers instrumented token types and heap owners via the allocator; plain Copy data cannot leak."),
+    "C07": dict(engine="SIM-R", category="exploration", design_ref="DESIGN.md 2.2, 3, 5",
+                technique="deterministic simulation: alignment/bounds monitor on every reference at the record's actual address (placements, capacities) + Miri arm with seeded addresses and symbolic alignment check",
+                text="Native arm: for every live record after every step, every accessor's reference must be aligned for its type, inside the capacity, and the record itself aligned, at inline / boxed / shifted placements chosen to land on minimally aligned addresses, for CAP = MAX_SIZE and larger. Miri arm (seeded address allocator, symbolic alignment check, borrow tracking): decides alignment-requiring stores into unaligned destinations, out-of-bounds, use of moved-out/freed memory and pointer provenance for all raw accesses of generated code. Samples; no proof.",
+                note="Typed raw loads/stores inside constructors, conversions and Drop are only visible to the Miri arm, which runs fewer histories (interpretation cost)."),
+    "C15": dict(engine="SIM-R", category="fault_enumeration", design_ref="DESIGN.md 2.2, 3",
+                technique="deterministic simulation with fault injection: refinement of serde's tuple implementation under faulty readers/writers, stream mutations and failing element codecs",
+                text="For every variant of serde-enabled definitions, JSON and bincode: encode(record) must equal encode(tuple of its fields) byte for byte, and decode::<Record>(s) must agree with decode::<(T0,..)>(s) (both error, or both ok with equal fields; never a panic) for well-formed streams and for streams truncated at any byte, with a flipped bit, with an extra, missing or wrongly typed element, delivered through readers with short reads, EINTR, an error or early EOF at byte k, and with the n-th element codec failing; after every rejected decode nothing decoded so far survives (ledger). Fault positions are drawn by seed (not exhaustively enumerated per stream).",
+                note="Reference model = serde's own tuple implementation; round-trip equality is reported only where the tuple model round-trips too, so format limitations cannot raise an alarm."),
+    "C16": dict(engine="SIM-R", category="fault_enumeration", design_ref="DESIGN.md 2.2, 3",
+                technique="deterministic simulation with fault injection: clone / clone_from with a panic injected at the clone of every field j; equality, independence and ledger oracles",
+                text="For every variant of clone-enabled definitions: clone yields equal fields with fresh live instances, later mutation/drop of either side leaves the other intact (checked by the per-step read-back of all live records); clone_from makes the target equal while its previous instances are destroyed exactly once; a panic is injected at the clone of field j for j drawn over all fields: after unwinding the source is intact, each target field holds its old or new value, nothing leaked or destroyed twice.",
+                note="j is drawn by seed over all fault points of each variant rather than enumerated per history; the probe clone_panic_on_last_field shows the extremes are reached."),
 }
 
 NOT_APPLICABLE = {
@@ -33,14 +57,8 @@ NOT_APPLICABLE = {
 }
 
 PENDING = {
-    "C04": "check under construction (SIM-R, DESIGN.md 2.2): not claimed until the simulator is committed",
-    "C05": "check under construction (SIM-R, DESIGN.md 2.2): not claimed until the simulator is committed",
-    "C06": "check under construction (SIM-R, DESIGN.md 2.2): not claimed until the simulator is committed",
-    "C07": "check under construction (SIM-R, DESIGN.md 2.2): not claimed until the simulator is committed",
     "C11": "check under construction (SIM-F, DESIGN.md 2.4): not claimed until the simulator is committed",
     "C14": "check under construction (SIM-T, DESIGN.md 2.3): not claimed until the simulator is committed",
-    "C15": "check under construction (SIM-R, DESIGN.md 2.2): not claimed until the simulator is committed",
-    "C16": "check under construction (SIM-R, DESIGN.md 2.2): not claimed until the simulator is committed",
     "C19": "check under construction (SIM-D, DESIGN.md 2.5): not claimed until the simulator is committed",
 }
 
@@ -53,6 +71,7 @@ HOOKS = dict(
 )
 
 ENGINES = [
+    dict(name="SIM-R", path="sim/recsim (+ sim/simgen, sim/simrt)", serves_properties=["C04", "C05", "C06", "C07", "C15", "C16"], kind_free_text="record life-cycle simulator: definitions generated by the real truc builder/generator in the simulator's build script, seeded operation histories with fault plans, offset-free reference model, value ledger, allocator seam, faulty Read/Write; native dev/release and Miri arms"),
     dict(name="SIM-V", path="sim/vecsim", serves_properties=["C08", "C09", "C10"], kind_free_text="seeded deterministic simulator of truc_runtime::convert with scripted faulty converter, value ledger and allocator seam; native dev/release and Miri arms"),
 ]
 
